@@ -64,4 +64,10 @@ DRIVERS = {
         "level_text": "Complete enumeration: no string, pair or directory subset within the bounds is skipped, so any counterexample of that size to canonicalisation, child/parent identity, equality/hash agreement, the three-case prekill pattern relation or wildcard resolution on a real file system is found.",
         "level_note": "Trusted: the reference in harness/common/refglob.h (shares no code with oomd or glob(3)); real tmpfs for resolution. '.'/'..' pattern components and bracket/brace syntax are left open.",
     },
+    "C12": {
+        "sources": COMMON + ["props/c12.cpp"], "level": "exploration", "engine": "E1",
+        "technique": "bounded-exhaustive enumeration of number/size strings, single-deviation IRs and JSON documents through both real loading paths (start-up and run-time drop-in), against a three-valued exact-arithmetic reference; crash/exception/UB outcome monitor under ASan+UBSan(float-cast-overflow)",
+        "level_text": "All strings up to the stated length, every single deviation of every plugin's argument table and every single shape deviation / truncation of a maximal JSON document are loaded through Main.cpp's own parseConfig+compile and through the drop-in adaptor; an outcome is a violation if the process would crash, an exception escapes the path's top level, an input the reference proves invalid is accepted, a valid one is rejected, an accepted value is not held exactly, or a rejected drop-in changes the engine.",
+        "level_note": "Trusted: reference grammar in harness/common/refnum.h (exact __int128 arithmetic; DONT_CARE where docs are silent), plugin argument tables transcribed from docs/core_plugins.md and the plugin headers. Main.cpp is compiled into the driver with main() renamed.",
+    },
 }
